@@ -345,6 +345,8 @@ def dt_attr(eng, v, name):
     if name in ("weekday", "isoweekday", "isocalendar", "toordinal", "timetuple", "utctimetuple", "replace", "date", "strftime", "isoformat",
                 "astimezone", "timestamp", "time"):
         return DTMethod(v, name)
+    if hasattr(_dt.datetime, name):
+        raise Unsupported("datetime attribute not modelled: " + name)     # present natively: not an AttributeError
     raise AttributeError(name)
 
 
@@ -358,6 +360,8 @@ def td_attr(eng, v, name):
         return eng.op("FloorDiv", eng.op("Mod", us, DAY_US), US)
     if name == "microseconds":
         return eng.op("Mod", us, US)
+    if hasattr(_dt.timedelta, name):
+        raise Unsupported("timedelta attribute not modelled: " + name)
     raise AttributeError(name)
 
 
